@@ -217,7 +217,7 @@ func checkC16(c *Ctx, r *Report) {
 	// ---- R3
 	type ro struct {
 		f     *ssa.Function
-		args  []int  // read-only parameter indices
+		args  []int // read-only parameter indices
 		allow []string
 	}
 	var ros []ro
